@@ -912,7 +912,7 @@ func parsedWorlds(r *Rng, n int, st *Stats) []*world {
 		g := &jsgen{r: r, features: feat}
 		g.noEval = r.Chance(50)
 		g.noWith = r.Bool()
-		g.noFnInBlock = false
+		g.noFnInBlock = !g.noWith
 		g.evalSibs = r.Chance(25)
 		var src string
 		if r.Chance(35) {
